@@ -448,7 +448,7 @@ class C20(Property):
             "non-trivial = no exception and at least one of include/omit/rename/key supplied and a non-empty selection")
     exhaustive_note = ("fields {a:str, b:int}; include, omit in {None, [], [a], [b], [a,b], [zz]}; rename in {None, a->b, a->z, z->a, "
                        "swap a<->b, chain z->a,y->z}; op in slice/update/setby; key in {None, upper} for slice/update")
-    quick_n = 100000
+    quick_n = 80000
     thorough_n = 600000
 
     # ------------------------------------------------------------ cases
